@@ -91,7 +91,7 @@ Variables F CB KW : Type.
 Variable leb : F -> F -> bool.
 Variable vle : V -> V -> Prop.
 Variable objective : ktensor V -> F.
-Variable scipy : (list V -> F) -> list V -> list (option V * option V) -> kwargs CB KW -> list V * F.
+Variable scipy : (list V -> F) -> list V -> list (option V * option V) -> kwargs CB KW -> list V * F * nat.
 
 Theorem lbfgsb_wrap_ktensor : scipy_contract V F CB KW leb vle scipy -> forall cb other (K0 : ktensor V) lb, wf_k K0 ->
   let o := lbfgsb_solve (ktensor V) V F CB KW tovec_f update_all objective scipy (mkKw CB KW (UserCb CB cb) other) K0 lb in
@@ -109,8 +109,8 @@ Proof.
   rewrite length_tovec in H1.
   split; [exact H1|]. split; [exact H2|]. split; [exact H3|]. split; [exact H4|]. split; [exact H6|].
   split.
-  - unfold o, lbfgsb_solve. destruct (scipy _ _ _ _). cbn [o_model]. apply update_all_keeps.
-  - unfold o, lbfgsb_solve. destruct (scipy _ _ _ _). cbn [o_model]. apply update_all_keeps.
+  - unfold o, lbfgsb_solve. destruct (scipy _ _ _ _) as [[x fx] wflag]. cbn [o_model]. apply update_all_keeps.
+  - unfold o, lbfgsb_solve. destruct (scipy _ _ _ _) as [[x fx] wflag]. cbn [o_model]. apply update_all_keeps.
 Qed.
 End Wrap.
 End Vec.
